@@ -244,3 +244,95 @@ Theorem pt_mul_ok n p : pt_ok p -> pt_ok (pt_mul n p).
 Proof. intro Hp. apply pt_mul_bits_ok; [exact pt_identity_ok | exact Hp]. Qed.
 Lemma ed_base_ok : pt_ok ed_base.
 Proof. unfold pt_ok, ed_base, tight, limbs_lt. cbn. lia. Qed.
+
+(** Equal decides equality of projective points: X1*Z2 = X2*Z1 and Y1*Z2 = Y2*Z1 in the field *)
+Lemma tight_u64s v : tight v -> u64s v.
+Proof. intro H. apply loose_u64s, tight_loose, H. Qed.
+
+Lemma eqp_of_N a b : Z.of_N a == Z.of_N b <-> (a mod fe_p = b mod fe_p)%N.
+Proof.
+  unfold eqp, P. rewrite <- !N2Z.inj_mod. split; [intro H; now apply N2Z.inj in H | now intros ->].
+Qed.
+
+Theorem pt_equal_spec v u : pt_ok v -> pt_ok u ->
+  (pt_equal v u = true <->
+   fz (px v) * fz (pz u) == fz (px u) * fz (pz v) /\ fz (py v) * fz (pz u) == fz (py u) * fz (pz v)).
+Proof.
+  intros (Tvx & Tvy & Tvz & _) (Tux & Tuy & Tuz & _). unfold pt_equal.
+  destruct (fz_mul (px v) (pz u) (tight_loose _ Tvx) (tight_loose _ Tuz)) as [T1 V1].
+  destruct (fz_mul (px u) (pz v) (tight_loose _ Tux) (tight_loose _ Tvz)) as [T2 V2].
+  destruct (fz_mul (py v) (pz u) (tight_loose _ Tvy) (tight_loose _ Tuz)) as [T3 V3].
+  destruct (fz_mul (py u) (pz v) (tight_loose _ Tuy) (tight_loose _ Tvz)) as [T4 V4].
+  rewrite Bool.andb_true_iff.
+  rewrite (fe_equal_spec _ _ (tight_u64s _ T1) (tight_u64s _ T2)), (fe_equal_spec _ _ (tight_u64s _ T3) (tight_u64s _ T4)).
+  rewrite <- !eqp_of_N. fold (fz (fe_mul (px v) (pz u))) (fz (fe_mul (px u) (pz v))) (fz (fe_mul (py v) (pz u))) (fz (fe_mul (py u) (pz v))).
+  rewrite V1, V2, V3, V4. reflexivity.
+Qed.
+
+(** Bytes: the little-endian encoding of y = Y * Z^(p-2) with the parity of x = X * Z^(p-2) in the top bit
+    (Z^(p-2) is the inverse of Z when p is prime, which is not formalised here) *)
+Theorem pt_bytes_spec v : pt_ok v ->
+  pt_bytes v = set_top_bit (le_bytes 32 ((fe_val (py v) * fe_val (pz v) ^ (fe_p - 2)) mod fe_p))
+                           (((fe_val (px v) * fe_val (pz v) ^ (fe_p - 2)) mod fe_p) mod 2).
+Proof.
+  intros (Tx & Ty & Tz & _). unfold pt_bytes.
+  destruct (fe_invert_spec (pz v) (tight_loose _ Tz)) as [Li Vi].
+  destruct (fe_mul_spec (px v) _ (tight_loose _ Tx) Li) as [T1 V1].
+  destruct (fe_mul_spec (py v) _ (tight_loose _ Ty) Li) as [T2 V2].
+  assert (Pnz : fe_p <> 0%N) by (rewrite fe_p_eq; discriminate).
+  rewrite (fe_bytes_spec _ (tight_u64s _ T2)), (fe_is_negative_spec _ (tight_u64s _ T1)).
+  rewrite V1, V2. rewrite (N.mul_mod (fe_val (px v))), (N.mul_mod (fe_val (py v))) by exact Pnz.
+  rewrite Vi. rewrite <- !N.mul_mod by exact Pnz. reflexivity.
+Qed.
+
+(** decoding: whatever 32 bytes come in, an accepted encoding yields a bounded point with Z = 1, Y the low 255 bits of
+    the input and T = X*Y; so everything computed from decoded keys stays within the proved bounds *)
+Lemma fe_select_tight a b c : tight a -> tight b -> tight (fe_select a b c).
+Proof. intros Ha Hb. destruct c; assumption. Qed.
+Lemma fe_one_tight : tight fe_one. Proof. unfold tight, limbs_lt, fe_one. cbn. lia. Qed.
+Lemma fe_sqrt_m1_tight : tight fe_sqrt_m1. Proof. unfold tight, limbs_lt, fe_sqrt_m1. cbn. lia. Qed.
+
+Lemma fe_sqrt_ratio_tight u v : tight u -> tight v -> tight (fst (fe_sqrt_ratio u v)).
+Proof.
+  intros Tu Tv. unfold fe_sqrt_ratio. cbv zeta. cbn [fst].
+  destruct (fe_square_spec v (tight_loose _ Tv)) as [Tv2 _].
+  destruct (fe_mul_spec _ v (tight_loose _ Tv2) (tight_loose _ Tv)) as [Tv3 _].
+  destruct (fe_mul_spec u _ (tight_loose _ Tu) (tight_loose _ Tv3)) as [Tuv3 _].
+  destruct (fe_square_spec _ (tight_loose _ Tv2)) as [Tv4 _].
+  destruct (fe_mul_spec _ _ (tight_loose _ Tuv3) (tight_loose _ Tv4)) as [Tuv7 _].
+  destruct (fe_pow22523_spec _ (tight_loose _ Tuv7)) as [Lpw _].
+  destruct (fe_mul_spec _ _ (tight_loose _ Tuv3) Lpw) as [Tr _].
+  destruct (fe_mul_spec _ _ (tight_loose _ Tr) (tight_loose _ fe_sqrt_m1_tight)) as [Trp _].
+  unfold fe_absolute. apply fe_select_tight.
+  - apply fz_neg. apply fe_select_tight; assumption.
+  - apply fe_select_tight; assumption.
+Qed.
+
+Theorem pt_set_bytes_ok x p : length x = 32%nat -> pt_set_bytes x = Some p ->
+  pt_ok p /\ fe_val (py p) = (le_val x mod 2 ^ 255)%N /\ pz p = fe_one /\ fz (pt p) == fz (px p) * fz (py p).
+Proof.
+  intros Hx. unfold pt_set_bytes. cbv zeta.
+  destruct (fe_set_bytes_spec x Hx) as [Ly Vy].
+  assert (Ty : tight (fe_set_bytes x)) by (unfold tight, limbs_lt in *; lia).
+  destruct (fe_square_spec _ (tight_loose _ Ty)) as [Ty2 _].
+  destruct (fz_sub _ fe_one (tight_loose _ Ty2) fe_one_tight) as [Tu _].
+  destruct (fe_mul_spec _ ed_d (tight_loose _ Ty2) (tight_loose _ ed_d_tight)) as [Tyd _].
+  destruct (fz_add _ fe_one (tight_loose _ Tyd) (tight_loose _ fe_one_tight)) as [Tv _].
+  pose proof (fe_sqrt_ratio_tight _ _ Tu Tv) as Txx.
+  destruct (fe_sqrt_ratio (fe_sub (fe_square (fe_set_bytes x)) fe_one) (fe_add (fe_mul (fe_square (fe_set_bytes x)) ed_d) fe_one)) as [xx sq].
+  cbn [fst] in Txx. destruct sq; [|discriminate]. intro E. injection E as <-. cbn [px py pz pt].
+  set (xs := fe_select (fe_neg xx) xx _).
+  assert (Txs : tight xs) by (apply fe_select_tight; [apply fz_neg|]; assumption).
+  destruct (fz_mul xs _ (tight_loose _ Txs) (tight_loose _ Ty)) as [Tt Vt].
+  split; [split; [exact Txs | split; [exact Ty | split; [exact fe_one_tight | exact Tt]]] | split; [exact Vy | split; [reflexivity | exact Vt]]].
+Qed.
+
+(** no limb operation wraps in the model's verification: for every accepted public key and all scalars the point
+    [S]B - [k]A is computed within the bounds *)
+Theorem edm_verify_point_bounded pk A k S : length pk = 32%nat -> pt_set_bytes pk = Some A ->
+  pt_ok (pt_add (pt_mul k (pt_neg A)) (pt_mul S ed_base)).
+Proof.
+  intros Hl HA. destruct (pt_set_bytes_ok pk A Hl HA) as [OA _].
+  destruct (pt_neg_formula A OA) as [ON _].
+  now destruct (pt_add_formula _ _ (pt_mul_ok k _ ON) (pt_mul_ok S _ ed_base_ok)).
+Qed.
